@@ -154,6 +154,12 @@ def judge(c, ir, mr):
         if not ok:
             return {"kind": "impersonate_tcp did not keep/replace the %s as the property demands (%s case)" % (f, k),
                     "why": "sig=%s %s" % (c["sig"], d), "judged_by": "C14 statement: admissibility predicate written from the property text"}
+    # tie: the model the C14 theorems are about reproduces bytes(out) under the same random tape
+    m = mr.get("model")
+    mb = m["ok"]["bytes"].get("ok") if isinstance(m, dict) and "ok" in m and isinstance(m["ok"].get("bytes"), dict) else None
+    if mb is None or c05.zero_checksums(mb, ir["ver"]) != c05.zero_checksums(ir["bytes"], ir["ver"]) or m["ok"]["unused_tape"] != 0:
+        return {"kind": "correspondence: the impersonation model no longer reproduces bytes(out) under the same random tape",
+                "why": "model %s impl %s" % (str(m)[:200], ir["bytes"][:200]), "no_failing_input": True}
     return None
 
 
